@@ -79,7 +79,10 @@ func templates(rng *sim.Rng) []bProgram {
 		seedv := rng.Range(1, 50)
 		src := fmt.Sprintf(`package main
 
-import "sync"
+import (
+	"sync"
+	"sync/atomic"
+)
 
 type T struct{ id int }
 
@@ -157,12 +160,33 @@ func main() {
 		y.Unlock()
 	}
 	println("G builtins", ok, len(mm))
+	// sync/atomic functions (compiler intrinsics) as callees: neighbours with
+	// identical parameter types and different operations
+	var c32, d32 int32 = 100, 100
+	var c64, d64 int64 = 100, 100
+	var u1, u2 uint32 = 100, 100
+	var p1, p2 uintptr = 100, 100
+	go atomic.AddInt32(&c32, 7)
+	go atomic.StoreInt32(&d32, 7)
+	go atomic.StoreInt64(&c64, 7)
+	go atomic.AddInt64(&d64, 7)
+	go atomic.SwapUint32(&u1, 7)
+	go atomic.AddUint32(&u2, 7)
+	go atomic.CompareAndSwapUintptr(&p1, 100, 7)
+	go atomic.CompareAndSwapUintptr(&p2, 7, 100) // fails: p2 stays 100
+	for atomic.LoadInt32(&c32) == 100 || atomic.LoadInt32(&d32) == 100 || atomic.LoadInt64(&c64) == 100 || atomic.LoadInt64(&d64) == 100 ||
+		atomic.LoadUint32(&u1) == 100 || atomic.LoadUint32(&u2) == 100 || atomic.LoadUintptr(&p1) == 100 {
+		var y sync.Mutex // a scheduling point
+		y.Lock()
+		y.Unlock()
+	}
+	println("G intrinsics", c32, d32, c64, d64, u1, u2, p1, p2)
 	println("G done")
 }
 `, seedv)
 		x := seedv
 		exp := []string{fmt.Sprintf("G T.M 1 %d", x), fmt.Sprintf("G P.M 2 %d", x+1000), fmt.Sprintf("G T.M 3 %d", x+2000),
-			fmt.Sprintf("G closure %d %d", x+3000, x+3001), fmt.Sprintf("G many %d true str 7 seven 3 true 1099511627776 5", (x+4000)%100), "G f1", "G noargs", "G builtins false 1", "G done"}
+			fmt.Sprintf("G closure %d %d", x+3000, x+3001), fmt.Sprintf("G many %d true str 7 seven 3 true 1099511627776 5", (x+4000)%100), "G f1", "G noargs", "G builtins false 1", "G intrinsics 107 7 7 107 7 107 7 100", "G done"}
 		ps = append(ps, bProgram{"go-statement-shapes", src, exp})
 	}
 	// 1c. go statements in a helper that returns at once (scalar arguments only, top-level
